@@ -7,15 +7,15 @@ OSegs == {"a", "A", "b", "inbox", "likes", "a%20b"}
 OwnerP == [sch : {"http", "https"}, host : {"example.com", "example.com:8080", "EXAMPLE.COM"},
            path : [segs : UNION {[1..k -> OSegs] : k \in 0..2}, ts : BOOLEAN], query : {NoQuery}, frag : {""}]
 
-Explicits(c) == {[k |-> "none"],
+Explicits(c) == {[k |-> "none"], [k |-> "nil-pointer"], [k |-> "empty-iri"],      \* nil-like values are "not present": the built IRI is due
                  [k |-> "iri", iri |-> [sch |-> "https", host |-> "example.org", path |-> [segs |-> <<"custom", c>>, ts |-> FALSE], query |-> NoQuery, frag |-> ""]],
                  [k |-> "object", iri |-> [sch |-> "https", host |-> "example.org", path |-> [segs |-> <<"b", "A">>, ts |-> FALSE], query |-> NoQuery, frag |-> ""]]}
 
 JoinCases == {[o |-> o, os |-> Str(o), c |-> c] : o \in OwnerP, c \in Names}
 OfOwners == {o \in OwnerP : o.host = "example.com" /\ Len(o.path.segs) <= 1}
 \* the type names a value of each kind may carry (the generic names included); the rule does not depend on them
-TypeNamesOf(kd) == CASE kd = "actor" -> {"Person", "Service", "Actor"} [] kd = "object" -> {"Note", "Object"} [] OTHER -> {"-"}
-OfCases == UNION {{[kind |-> kd, tn |-> tn, id |-> o, ids |-> Str(o), c |-> c, explicit |-> IF e.k = "none" THEN e ELSE [k |-> e.k, iri |-> e.iri, s |-> Str(e.iri)]]
+TypeNamesOf(kd) == CASE kd = "actor" -> {"Person", "Service", "Actor", ""} [] kd = "object" -> {"Note", "Object", ""} [] OTHER -> {"-"}    \* "" = no type yet
+OfCases == UNION {{[kind |-> kd, tn |-> tn, id |-> o, ids |-> Str(o), c |-> c, explicit |-> IF e.k \in {"none", "nil-pointer", "empty-iri"} THEN e ELSE [k |-> e.k, iri |-> e.iri, s |-> Str(e.iri)]]
                     : e \in (IF HasProp(kd, c) THEN Explicits(c) ELSE {[k |-> "none"]}), tn \in TypeNamesOf(kd)}
                   : kd \in {"object", "actor", "iri"}, o \in OfOwners, c \in Names}
 
